@@ -75,7 +75,9 @@ def ref_strip_set(case):
     """(strip set, placement label) of the policy in effect"""
     rq, ct = case.get("req_policy", NOT_GIVEN), case.get("ctor_policy", NOT_GIVEN)
     ctor_label = "pool" if case["client"] == "HTTPConnectionPool" else "manager"
-    if rq != NOT_GIVEN:
+    if rq is None and ct != NOT_GIVEN:
+        spec, placement = ct, "request-None+" + ctor_label
+    elif rq != NOT_GIVEN:
         spec, placement = rq, "request"
     elif ct != NOT_GIVEN:
         spec, placement = ct, ctor_label
@@ -241,6 +243,18 @@ def policy_placements():
     return out
 
 
+def extra_placements():
+    out = []
+    # the same names handed over as a frozenset / tuple (mixed case: they still have to be compared case-insensitively)
+    out.append((R(remove=["x-API-key", "cookie"], remove_as="frozenset"), NOT_GIVEN))
+    out.append((NOT_GIVEN, R(remove=["X-Api-Key", "Authorization", "Cookie", "Proxy-Authorization"], remove_as="frozenset")))
+    out.append((R(remove=["X-Api-Key"], remove_as="tuple"), NOT_GIVEN))
+    # an explicit retries=None with the request: "not specified here" - the manager's policy (and strip set) applies
+    out.append((None, R(remove=["X-Api-Key"])))
+    out.append((None, R(remove=["x-API-key", "cookie"], remove_as="frozenset")))
+    return out
+
+
 def configs(thorough):
     out = []
     for client in G.MANAGERS:
@@ -254,6 +268,10 @@ def configs(thorough):
         for cont in ("dict", "mgr+req"):
             for pl in policy_placements()[:3]:
                 out.append(("M", client, "canonical", cont, pl, "GET", 1))
+        for sp in ("alternating", "upper"):
+            for cont in ("dict", "hd"):
+                for pl in extra_placements():
+                    out.append(("M", client, sp, cont, pl, "GET", 0))
         # start on a non-default port: a scheme change then keeps host AND port (http://a.test:8080 -> https://a.test:8080),
         # so nothing but the scheme tells the two origins apart
         out.append(("M", client, "canonical", "dict", (NOT_GIVEN, NOT_GIVEN), "GET", 0, "hax"))
@@ -342,8 +360,8 @@ def run(ctx):
     cov = {
         "distinct_nontrivial": c["nontrivial"],
         "rule": "product {PoolManager, ProxyManager} x 4 header spellings x 4 containers (dict, HTTPHeaderDict with repeated "
-                "fields, manager default headers=, manager defaults + request headers made of default-strip-set fields only) x 7 strip policies (default; 3 custom sets at request level and at manager "
-                "level) x all chains of the tier's chain list over 7 origin-relation Location forms; plus single-host pools x "
+                "fields, manager default headers=, manager defaults + request headers made of default-strip-set fields only) x 12 strip policies (default; 3 custom sets at request level and at manager "
+                "level; the sets also as frozenset/tuple; explicit request-level None over a manager-level set) x all chains of the tier's chain list over 7 origin-relation Location forms; plus single-host pools x "
                 "spellings x containers x {http, https} x cross-origin Location forms; every tuple is a distinct case; "
                 "non-trivial = at least one redirect followed or refused",
         "exhaustive": True,
